@@ -187,34 +187,70 @@ def ofArms (globals : Vis) : Nat → List Arm → Option CArms
       pure (.cons ps b r)
 end
 
-/-- top-level statements of the fragment (`let`, expression statements, blocks, unlabelled
-`while` loops without break/continue).  `n` = number of global slots defined so far (slots
-are never reused); `vis` = the bindings visible here (a block's bindings end with it).
-Returns the statements, the slot count and the visible bindings afterwards. -/
-def ofStmts : Nat → Nat → Vis → List Stmt → Option (List CStmt × Nat × Vis)
-  | 0, _, _, _ => none
-  | _+1, n, vis, [] => some ([], n, vis)
-  | fuel+1, n, vis, s :: rest =>
+/-- a `break` / `continue` with this label has a loop to go to (`labels`: the labels of the
+enclosing loops, innermost first); otherwise the real compiler reports a compile error -/
+def labelOK (labels : List (Option String)) : Option String → Bool
+  | none => !labels.isEmpty
+  | some l => labels.contains (some l)
+
+/-- top-level statements of the fragment (`let`, expression statements, blocks, `while` and
+`loop` with optional labels, `break` / `continue` inside an addressed loop, `if` with
+statement blocks in statement position).  `n` = number of global slots defined so far (slots
+are never reused); `vis` = the bindings visible here (a block's bindings end with it);
+`labels` = the enclosing loops.  Returns the statements, the slot count and the visible
+bindings afterwards. -/
+def ofStmts : Nat → Nat → Vis → List (Option String) → List Stmt → Option (List CStmt × Nat × Vis)
+  | 0, _, _, _, _ => none
+  | _+1, n, vis, _, [] => some ([], n, vis)
+  | fuel+1, n, vis, labels, s :: rest =>
     match s with
     | .letS _ _ name e => do
       -- the name is defined before its initializer is compiled
       let vis' := (name, n) :: vis
       let e' ← ofExpr vis' fuel e
-      let (ss, nf, visf) ← ofStmts fuel (n + 1) vis' rest
+      let (ss, nf, visf) ← ofStmts fuel (n + 1) vis' labels rest
       pure (.letG n e' :: ss, nf, visf)
-    | .exprS _ e => do
-      let e' ← ofExpr vis fuel e
-      let (ss, nf, visf) ← ofStmts fuel n vis rest
-      pure (.expr e' :: ss, nf, visf)
+    | .exprS _ e =>
+      match ofExpr vis fuel e with
+      | some e' => do
+        let (ss, nf, visf) ← ofStmts fuel n vis labels rest
+        pure (.expr e' :: ss, nf, visf)
+      | none =>
+        -- an `if` whose branches are statement blocks (`else if x` = `else { x }`)
+        match e with
+        | .ifE _ c (.mk _ ts) els => do
+          let c' ← ofExpr vis fuel c
+          let (t', n1, _) ← ofStmts fuel n vis labels ts
+          let (e', n2, _) ← (match els with
+            | .none => some ([], n1, vis)
+            | .els (.mk _ es) => ofStmts fuel n1 vis labels es
+            | .elif x => ofStmts fuel n1 vis labels [.exprS 0 x])
+          let (ss, nf, visf) ← ofStmts fuel n2 vis labels rest
+          pure (.ifS c' t' e' :: ss, nf, visf)
+        | _ => none
     | .block (.mk _ body) => do
-      let (bs, n1, _) ← ofStmts fuel n vis body
-      let (ss, nf, visf) ← ofStmts fuel n1 vis rest
+      let (bs, n1, _) ← ofStmts fuel n vis labels body
+      let (ss, nf, visf) ← ofStmts fuel n1 vis labels rest
       pure (.block bs :: ss, nf, visf)
-    | .whileS _ none cond (.mk _ body) => do
+    | .whileS _ lbl cond (.mk _ body) => do
       let c' ← ofExpr vis fuel cond
-      let (bs, n1, _) ← ofStmts fuel n vis body
-      let (ss, nf, visf) ← ofStmts fuel n1 vis rest
-      pure (.whileS c' bs :: ss, nf, visf)
+      let (bs, n1, _) ← ofStmts fuel n vis (lbl :: labels) body
+      let (ss, nf, visf) ← ofStmts fuel n1 vis labels rest
+      pure (.whileS lbl c' bs :: ss, nf, visf)
+    | .loop _ lbl (.mk _ body) => do
+      let (bs, n1, _) ← ofStmts fuel n vis (lbl :: labels) body
+      let (ss, nf, visf) ← ofStmts fuel n1 vis labels rest
+      pure (.loopS lbl bs :: ss, nf, visf)
+    | .breakS _ lbl =>
+      if labelOK labels lbl then do
+        let (ss, nf, visf) ← ofStmts fuel n vis labels rest
+        pure (.breakS lbl :: ss, nf, visf)
+      else none
+    | .continueS _ lbl =>
+      if labelOK labels lbl then do
+        let (ss, nf, visf) ← ofStmts fuel n vis labels rest
+        pure (.continueS lbl :: ss, nf, visf)
+      else none
     | _ => none
 
 /-- executable run of the machine (fuel = number of steps) -/
